@@ -92,6 +92,9 @@ def run(ctx):
     rm.replay_body_context_clause(ctx, res, 'C02', 'C02.i')
     rm.api_leaves_replay_state_clause(ctx, res, 'C02', 'C02.j')
     rm.options_forwarded_clause(ctx, res, 'C02', 'C02.k')
+    from . import c06 as _c06
+    ckc = res.clause('C02.l', 'R-TAINT', 'keys keep type information: a value recorded for a different call is never returned', floor=1)
+    _c06.key_codec_clause(ctx, res, ckc, 'C02', 'C02.l')
     # ---------------- C02.a operation
     d = doms['operation']
     fac, deco, cl = roles.closures['operation']
